@@ -406,7 +406,7 @@ impl TableM {
                     c.range.map(|r| Val::Int(r.1)).unwrap_or(Val::Null),
                     c.fk.as_ref().map(|f| Val::Str(f.0.clone())).unwrap_or(Val::Null),
                     c.fk.as_ref().map(|f| Val::Int(f.1)).unwrap_or(Val::Null),
-                    c.category.as_ref().map(|x| Val::Str(x.clone())).unwrap_or(Val::Null),
+                    c.category.as_ref().map(|x| Val::Str(crate::spec::canon_category(x))).unwrap_or(Val::Null),
                     if c.enums.is_empty() { Val::Null } else { Val::Str(c.enums.join(";")) },
                     Val::Null,
                 ]);
